@@ -245,6 +245,49 @@ def run(ctx):
             tid += 1
             traces.append({"tid": tid, "meta": {"n": n, "base": cz.graph_edges1(g1)}, "n": n,
                            "base": cz.graph_edges1(g1), "need_orbit": True, "events": evs})
+    if ctx.quick:
+        # a sample at 6 vertices (solution spaces of dimension >= 5 start to occur for connected graphs here): the start
+        # graph itself, members of its orbit and non-members
+        for _ in range(30):
+            n = 6
+            g1 = nx.gnp_random_graph(n, rng.choice([0.4, 0.5, 0.6]), seed=rng.randrange(2 ** 31))
+            if not nx.is_connected(g1):
+                continue
+            orb = orbit_py(g1, n)
+            members = [g1] + rng.sample(orb, min(7, len(orb)))
+            others = [nx.gnp_random_graph(n, 0.5, seed=rng.randrange(2 ** 31)) for _ in range(3)]
+            evs = []
+            for g2 in members + others:
+                evs += decide_events(g1, g2, n, rng, full=False)
+            tid += 1
+            traces.append({"tid": tid, "meta": {"n": n, "base": cz.graph_edges1(g1)}, "n": n,
+                           "base": cz.graph_edges1(g1), "need_orbit": True, "events": evs})
+    # many equivalent pairs at 6 and 7 vertices, equivalence certified by a complementation sequence that TLC replays
+    # (rare incompleteness: a fraction of a percent of the pairs is enough to matter)
+    from drivers.c16 import lc_certs
+    from graphiq.backends.lc_equivalence_check import is_lc_equivalent
+    for n, count in ((6, 130 if ctx.quick else 1500), (7, 20 if ctx.quick else 400)):
+        for _ in range(count):
+            g1 = nx.gnp_random_graph(n, rng.choice([0.4, 0.5, 0.6]), seed=rng.randrange(2 ** 31))
+            if not nx.is_connected(g1):
+                continue
+            orb = orbit_py(g1, n)
+            members = [g1] + rng.sample(orb, min(7, len(orb)))
+            certs = lc_certs(g1, members, n)
+            a1 = adj_of(g1, n)
+            evs = []
+            for g2, cert in zip(members, certs):
+                a2 = adj_of(g2, n)
+                try:
+                    ok, _sol = is_lc_equivalent(a1.copy(), a2.copy())
+                    out = {"err": "", "yes": bool(ok)}
+                except Exception as ex:
+                    out = {"err": type(ex).__name__, "yes": False}
+                evs.append({"fn": "lc_decide_cert", "via": "is_lc_equivalent:deterministic", "g2": cz.graph_edges1(g2),
+                            "cert": cert, "dim": 0 if out["yes"] else solution_dim(a1, a2), "out": out})
+            tid += 1
+            traces.append({"tid": tid, "meta": {"n": n, "base": cz.graph_edges1(g1), "kind": "certified pairs"}, "n": n,
+                           "base": cz.graph_edges1(g1), "need_orbit": False, "events": evs})
     if not ctx.quick:
         for n, starts in ((5, list(cz.all_graphs(5))), (6, None)):
             if starts is None:
